@@ -66,7 +66,7 @@ def run(ctx):
     def known_pair(i, j):
         k = (i, j)
         if k not in cls_cache:
-            cls_cache[k] = bool(ordlib.pair_classes(u[i], u[j]))
+            cls_cache[k] = ordlib.pair_classes(u[i], u[j])
         return cls_cache[k]
     checked = 0
     for i in range(n):
@@ -78,7 +78,10 @@ def run(ctx):
             for k in range(n):
                 if rj[k] <= 0 and row[k] > 0:
                     checked += 1
-                    if known_pair(i, j) or known_pair(j, k) or known_pair(i, k):
+                    cls = known_pair(i, j) | known_pair(j, k) | known_pair(i, k)
+                    if "C12-padded-big" in cls:
+                        ctx.known_hits["C11-padded-big"] += 1
+                    elif cls:
                         ctx.known_hits["C11-intransitive"] += 1
                     else:
                         ctx.violations.append(("ord", "cmp %s | %s" % (shown[i], shown[k]), impl[i * n + k],
